@@ -133,6 +133,66 @@ def failed_open_script(ctx, q):
     return "\n".join(L) + "\n", plan
 
 
+def metadata_invalid_calls(ctx, q):
+    """rejected metadata calls: a refused sf_set_string / sf_set_chunk / SFC_SET_* must leave the handle (the strings already stored included) as it was"""
+    L, plan = [], []
+    sid = 0
+    for (mj, sb) in (("WAV", "PCM_16"), ("AIFF", "PCM_16"), ("CAF", "PCM_16"), ("RF64", "PCM_16"), ("WAVEX", "FLOAT")):
+        f = formats.fmt(mj, sb)
+        for mode in ("w", "r"):
+            L.append("open 0 %d w %x 2 8000" % (sid, f))
+            L.append("str 0 set 1 7469746c65")          # title
+            L.append("str 0 set 2 636f7079")            # copyright
+            L.append("str 0 set 4 617274697374")        # artist
+            if mode == "r":
+                L += ["w 0 s f 10 1 2 3 4", "close 0", "open 0 %d r 0 0 0" % sid]
+            invalid = [("str 0 set 1", "empty_string"), ("str 0 set 2", "empty_string"), ("str 0 set 4", "empty_string"), ("str 0 set 99 6162", "bad_string_type"),
+                       ("str 0 set 0 6162", "bad_string_type")]
+            if mode == "r":
+                invalid = [("str 0 set 1 6e6577", "set_string_on_read_handle"), ("chunk set 0 54657374 0102", "set_chunk_on_read_handle")]
+            for (line, cls) in invalid:
+                L.append("state 0")
+                a = len(L)
+                L.append(line)
+                b = len(L)
+                L.append("state 0")
+                c = len(L)
+                L.append("str 0 get 1")
+                L.append("str 0 get 2")
+                L.append("str 0 get 4")
+                plan.append((a, b, c, len(L) - 2, mj, mode, cls, line))
+            L.append("close 0")
+            sid = (sid + 1) % 30
+    script = "\n".join(L) + "\n"
+    rc, hl, err = sdrive.run_harness(script, "C09_meta")
+    if rc != 0:
+        ctx.violation("invalid_metadata:sanitizer", "rejected metadata calls: run ended rc=%d: %s" % (rc, err.strip().split("\n")[0][:300]), script + "\n" + err[-3000:])
+        return
+    n, seen = 0, set()
+    for (a, b, c, g, mj, mode, cls, line) in plan:
+        if a not in hl or c not in hl or b not in hl:
+            continue
+        n += 1
+        d = hl[b][1]
+        probs = []
+        if d.get("ret") in ("0",) and cls != "set_chunk_on_read_handle":
+            probs.append("not refused (ret=0)")
+        if hl[a][1].get("dig") != hl[c][1].get("dig"):
+            probs.append("handle state changed")
+        vals = [hl.get(g + k, ("", {}, ""))[1].get("val") for k in range(3)]
+        if vals != ["x7469746c65", "x636f7079", "x617274697374"]:
+            probs.append("stored strings changed: %s" % vals)
+        if probs:
+            key = "invalid_metadata:%s:%s" % (cls, mode)
+            if key not in seen:
+                seen.add(key)
+                ctx.violation(key, "%s (%s handle): `%s` (%s): %s" % (mj, "write" if mode == "w" else "read", line, cls, "; ".join(probs)),
+                              "script:\n" + sdrive.section_prefix(script, c)[-2500:] + "\n\ntranscript:\n" + "\n".join(hl[k][2][:200] for k in (a, b, c, g, g + 1, g + 2) if k in hl))
+    ctx.tie("rejected_metadata_calls", "oracle", n, len(plan),
+            "sf_set_string with an empty string or an unknown type on a write handle that already holds strings, sf_set_string / sf_set_chunk on a read handle (WAV, AIFF, CAF, RF64, WAVEX): "
+            "refused, state digest unchanged (the string table is part of it), the stored strings still read back")
+
+
 def run(ctx):
     q = ctx.tier == "quick"
     from checks import regen
@@ -207,5 +267,6 @@ def run(ctx):
     if diff:
         ctx.broken_proofs.append(("wrapper_transcription(%s)" % ",".join(diff),
                                   "the source text of %s no longer matches the text Api.v was transcribed from" % ", ".join(diff), None))
+    metadata_invalid_calls(ctx, q)
     ctx.trusted += ["hand-written wrapper model Api.v (transcription check + script correspondence on every run)",
                     "invalid pointer arguments other than NULL are outside the property"]
